@@ -93,11 +93,22 @@ def _run_variant(args):
     keys = [f'{f.rule} {f.construct}' for f in fs] + \
            [f'{r} <vacuous>' for r in vac]
     if v['expect'] is None:
+        if not keys and ctx.undecided:
+            return (v['id'], 'false-alarm',
+                    [f'undecided {f.rule} {f.construct}'
+                     for f in ctx.undecided])
         return (v['id'], 'silent' if not keys else 'false-alarm', keys)
     hit = [f for f in fs if f.rule == v['expect']
            and v['construct'] in f.construct]
     if hit or (v['expect'] in vac):
         return (v['id'], 'fired', keys)
+    und = [f for f in ctx.undecided if f.rule == v['expect']
+           and v['construct'] in f.construct]
+    if und:
+        # the edit re-expressed the very condition the fact names: the
+        # check ends as ANALYSIS-ERROR (exit 2) on it, not as a pass
+        return (v['id'], 'undecided',
+                [f'{f.rule} {f.construct}' for f in und])
     return (v['id'], 'missed', keys)
 
 
@@ -140,7 +151,8 @@ def run_for(prop: str, ctx, seed: int, jobs: int = 16, repo=None) -> None:
             parts = list(ex.map(_run_chunk, [(prop, c) for c in chunks]))
         results = [r for part in parts for r in part]
     summary = {'variants': len(results), 'fired': 0, 'silent': 0,
-               'stale': [], 'missed': [], 'false_alarm': [], 'errors': []}
+               'stale': [], 'missed': [], 'false_alarm': [], 'errors': [],
+               'undecided': []}
     for vid, status, keys in results:
         if status == 'fired':
             summary['fired'] += 1
@@ -148,6 +160,8 @@ def run_for(prop: str, ctx, seed: int, jobs: int = 16, repo=None) -> None:
             summary['silent'] += 1
         elif status == 'stale':
             summary['stale'].append(vid)
+        elif status == 'undecided':
+            summary['undecided'].append(vid)
         elif status == 'missed':
             summary['missed'].append({'id': vid, 'got': keys[:5]})
         elif status == 'false-alarm':
